@@ -1,6 +1,6 @@
 /-
 C01 — lemmas about the whitelisted-fee component (Model/Ledger/Whitelist.lean): coherence of cache and storage
-is preserved by every operation except a `set` of an already cached key.
+is preserved by every operation.
 -/
 import NeoModel.Model.Ledger.Whitelist
 namespace NeoModel.Ledger.Whitelist
@@ -64,15 +64,12 @@ theorem get_clean (l : List (WKey × Int)) (c : Nat) (k : WKey) :
       · simp only [hk]; exact ih
 
 
-theorem step_coherent (s s' : State) (o : Op) (h : Coherent s)
-    (hf : match o with | .set k _ => (get s.cache k).isNone = true | _ => True)
-    (hs : step s o = some s') : Coherent s' := by
+theorem step_coherent (s s' : State) (o : Op) (h : Coherent s) (hs : step s o = some s') : Coherent s' := by
   cases o with
   | set k fee =>
     simp only [step] at hs
     split at hs; · simp at hs
-    have hn : get s.cache k = none := by simpa using hf
-    simp only [hn, Option.some.injEq] at hs
+    simp only [Option.some.injEq] at hs
     subst hs
     intro k'
     by_cases e : k' = k
@@ -97,18 +94,22 @@ theorem step_coherent (s s' : State) (o : Op) (h : Coherent s)
     subst hs
     intro k'; rfl
 
-theorem run_coherent (ops : List Op) : ∀ (s : State), Coherent s → freshSets s ops = true → Coherent (run s ops) := by
+theorem run_coherent (ops : List Op) : ∀ (s : State), Coherent s → Coherent (run s ops) := by
   induction ops with
-  | nil => intro s h _; exact h
+  | nil => intro s h; exact h
   | cons o os ih =>
-    intro s h hf
-    simp only [freshSets, Bool.and_eq_true] at hf
+    intro s h
     simp only [run]
     cases hs : step s o with
-    | none => simp only [hs, Option.getD] at hf ⊢; exact ih s h hf.2
-    | some s' =>
-      simp only [hs, Option.getD] at hf ⊢
-      refine ih s' (step_coherent s s' o h ?_ hs) hf.2
-      cases o <;> simp_all
+    | none => simp only [Option.getD]; exact ih s h
+    | some s' => simp only [Option.getD]; exact ih s' (step_coherent s s' o h hs)
+
+/-- a restart changes no answer of a coherent state -/
+theorem restart_invisible (s : State) (h : Coherent s) (k : WKey) :
+    get ((step s .restart).getD s).cache k = get s.cache k := by
+  simp only [step, Option.getD]; exact (h k).symm
+
+theorem empty_coherent : Coherent empty := fun _ => rfl
 
 end NeoModel.Ledger.Whitelist
+
